@@ -39,6 +39,15 @@ CLAIM = dict(
 # self-contained (signature, witness); an entry marked "fixed" in known-findings.json is dropped at run time.
 # Signatures are computed by `signatures()`.
 PROPOSED_KNOWN = [
+    dict(property="C09", id="nested-interface-with-two-parents", status="known",
+         signature="one contributor mentions the SAME anonymous interface under two instance exports (`n: I, m: I`): "
+                   "remap_interface copies it once (the `remapped` memo), so a later merge below one export also changes "
+                   "the other",
+         witness="agg\t2\tF 0 0 - ; I - 0 1 f f:0 ; I - 0 2 n i:0 m i:0\tF 0 0 - ; I - 0 1 g f:0 ; I - 0 1 n i:0\t2\tfoo 0 i:1\tfoo 1 i:1",
+         text="foo:{n:I, m:I} with I={f}, then foo:{n:{g}}: the merged tree is {n:{f,g}, m:{f,g}} (strictly more demanding than "
+              "the union {n:{f,g}, m:{f}}); with a third contributor foo:{m:{g: func(x:u8)}} success depends on the order. Coq: "
+              "instance_merge_is_union_nested_refuted, fails_iff_conflict_nested_refuted. Repair candidate: "
+              "hooks/fix-c09-nested-shared-interface.patch (not applied: needs the same change in Aggregator.v)"),
     dict(property="C09", id="component-imports-united", status="known",
          signature="merge_world: imports of two component requirements are merged by UNION (a new import of the contributor "
                    "is inserted), which yields a supertype, not a subtype, of the contributors",
@@ -357,6 +366,8 @@ def track_of(name):
 
 
 ALLOWED = {
+    "nested-interface-with-two-parents": {"merged-tree-not-union", "order-dependent-success", "fails-without-conflict",
+                                          "order-dependent-result"},
     "component-imports-united": {"upper-bound", "upper-bound-spec", "order-dependent-result"},
     "interface-id-under-two-import-names": {"order-dependent-result", "merged-tree-not-union", "export-order-not-first-seen",
                                             "order-dependent-success", "fails-without-conflict", "succeeds-despite-conflict"},
@@ -380,7 +391,22 @@ def signatures(case, impl, model):
         s.add("owner-import-bypasses-canonical-name")
     if shared:
         s.add("interface-id-under-two-import-names")
+    if two_parents_sig(cf, k):
+        s.add("nested-interface-with-two-parents")
     return s
+
+
+def two_parents_sig(cf, k):
+    """some contributor's type list has an instance entry `I <id> <uses> <n> name ref ...` in which one anonymous interface
+    reference `i:<j>` occurs under two export names"""
+    for tl in cf[2:2 + k]:
+        for ent in tl.split(" ; "):
+            f = ent.split(" ")
+            if f and f[0] == "I" and len(f) >= 4:
+                refs = [f[i] for i in range(5, len(f), 2) if f[i].startswith("i:")]
+                if len(refs) != len(set(refs)):
+                    return True
+    return False
 
 
 def pretty(case):
